@@ -198,21 +198,27 @@ Qed.
 
 (* ---- registry: a client sees its own write through a coherent cache ---- *)
 Open Scope N_scope.
-Lemma own_write_visible_p : forall fx uc t cs id ty run, wf_tables t -> Coherent t cs -> lookup run (chains t) = None ->
-  In id (snd (rstep fx uc (fst (rstep fx uc (t, cs) (Put id ty run))) (QData ty run))).
+Lemma own_write_visible_p : forall uc t cs id ty run, wf_tables t -> Coherent t cs ->
+  key_of t run <> None -> lookup run (chains t) = None ->
+  In id (snd (rstep as_coded uc (fst (rstep as_coded uc (t, cs) (Put id ty run))) (QData ty run))).
 Proof.
-  intros fx uc t cs id ty run Hw Hc Hn.
-  assert (C := coherent_step fx uc t cs (Put id ty run) Hw Hc (or_intror I)).
-  assert (W := wf_tables_step fx uc t cs (Put id ty run) Hw I).
-  cbn [rstep fst snd] in *.
-  set (t' := mkTables (chains t) (if existsb (fun p => (fst p =? run) && (snd p =? ty)) (summ t) then summ t else summ t ++ [(run, ty)])
+  intros uc t cs id ty run Hw Hc Hk Hn.
+  assert (C := coherent_step uc t cs (Put id ty run) Hw Hc).
+  assert (W := wf_tables_step as_coded uc t cs (Put id ty run) Hw).
+  assert (E1 : exists_b t run = true) by (apply exists_b_true; auto).
+  assert (E2 : is_chain_b t run = false) by (apply is_chain_b_false; auto).
+  cbn [rstep fst snd] in *. rewrite E1, E2 in *. cbn [andb negb fst snd] in *.
+  set (t' := mkTables (ckeys t) (chains t) (if existsb (fun p => (fst p =? run) && (snd p =? ty)) (summ t) then summ t else summ t ++ [(run, ty)])
                       (data t ++ [(id, ty, run)])) in *.
   set (cs' := mkCaches (rcache cs) (match scache cs with Some _ => Some [] | None => None end)) in *.
-  destruct (query_datasets_spec t' ty run cs' W C) as [Q _].
-  destruct (query_datasets t' cs' ty run) as [r cs2]. simpl in *. subst r.
-  unfold members. change (chains t') with (chains t). rewrite Hn. simpl. rewrite app_nil_r.
+  cbn [rstep]. destruct (query_datasets_spec t' ty run cs' W C) as [Q _].
+  destruct (query_datasets t' cs' ty run) as [r cs2]. cbn [fst snd] in *. subst r.
+  assert (Ch : chains t' = chains t) by reflexivity. assert (Ck : key_of t' run = key_of t run) by reflexivity.
+  unfold query_ans. rewrite Ck. destruct (key_of t run) eqn:K; [|congruence].
+  unfold members. rewrite Ch, Hn. cbn [true_query]. rewrite app_nil_r.
+  unfold summary_ans. rewrite Ck.
   assert (S : memN ty (true_summary t' run) = true).
-  { unfold true_summary. change (chains t') with (chains t). rewrite Hn. unfold table_summary, memN. apply existsb_exists.
+  { unfold true_summary. rewrite Ch, Hn. unfold table_summary, memN. apply existsb_exists.
     exists ty. split; [|apply N.eqb_refl]. apply in_map_iff. exists (run, ty). split; auto. apply filter_In. split; [|simpl; apply N.eqb_refl].
     unfold t'. simpl. destruct (existsb (fun p => (fst p =? run) && (snd p =? ty)) (summ t)) eqn:X.
     - apply existsb_exists in X. destruct X as [[a b] [Xi Xe]]. simpl in Xe. apply andb_true_iff in Xe. destruct Xe as [X1 X2].
